@@ -105,12 +105,26 @@ class Check:
                 self.functions[func]["obligations"] += 1
             self.obs.append(ob2)
 
-    def add_identity(self, name, lhs, rhs, hyps, func=None, meta=None, side=True):
-        """lhs == rhs over the reals via atom abstraction; side conditions become their own obligations."""
+    def add_identity(self, name, lhs, rhs, hyps, func=None, meta=None, side=True, _split=True):
+        """lhs == rhs over the reals via atom abstraction; side conditions become their own obligations.
+        if-then-else sub-terms the hypotheses do not decide are handled by case analysis (children <name>@case<k>, which stand for <name> on the
+        baseline lock)."""
         try:
             goal, cons0, sides, at, hyps = C.identity_obligation2(lhs, rhs, list(hyps))
             cons = list(at.constraints)
         except T.Unsupported as e:
+            if _split and "ite inside" in str(e):
+                try:
+                    cases = T.split_ites(T.zr(lhs) - T.zr(rhs), [h for h in hyps if T.is_sym(h)], max_cases=16)
+                except T.Unsupported as e2:
+                    self.undecided.append((f"{self.pid}/{name}", f"atom abstraction: {e2}"))
+                    return None
+                last = None
+                for k, (extra, diff) in enumerate(cases):
+                    m = dict(meta or {})
+                    m["case_of"] = f"{self.pid}/{name}"
+                    last = self.add_identity(f"{name}@case{k}", diff, z3.RealVal(0), list(hyps) + list(extra), func=func, meta=m, side=side, _split=False)
+                return last
             self.undecided.append((f"{self.pid}/{name}", f"atom abstraction: {e}"))
             return None
         m = dict(meta or {})
@@ -208,7 +222,7 @@ class Check:
                 path = self.write_replay(ob, r, failing)
                 violations.append(f"VIOLATION property={pid} replay={path}")
                 r.meta["violation"] = True
-            elif r.status == "refuted" and ob.name in locked:
+            elif r.status == "refuted" and (ob.name in locked or ob.meta.get("case_of") in locked):
                 path = self.write_replay(ob, r, failing)
                 violations.append(f"VIOLATION property={pid} replay={path} no-failing-input-found")
                 r.meta["violation"] = True
@@ -264,6 +278,19 @@ class Check:
             return 1
         if not results and bounded is None:
             return 2
+        # obligations that are proved on the baseline lock must be proved again: an obligation that is now undecided or was not generated
+        # (the code left the fragment the verifier reads) means "not shown to hold" -- exit 2, never a VIOLATION line
+        if os.environ.get("VERIF_UPDATE_LOCK") != "1" and results:
+            proved_now = {r.name for r in results if r.status == "proved"}
+            case_parents = {}
+            for r in results:
+                if r.meta.get("case_of"):
+                    case_parents.setdefault(r.meta["case_of"], []).append(r.status == "proved")
+            lost = sorted(n for n in locked if n not in proved_now and not (n in case_parents and all(case_parents[n])))
+            lost = [n for n in lost if not any(n == r.name and r.meta.get("known_finding") for r in results)]
+            if lost:
+                print(f"UNDECIDED property={pid} {len(lost)} obligation(s) proved on the baseline lock are not proved now, e.g. {lost[:3]}")
+                return 2
         if bounded_args is not None and not bounded_ok and n_proved < len(claims):
             return 2
         if bounded_args is not None and not bounded_ok:
